@@ -62,6 +62,10 @@ fn branch(rng: &mut Rng, fd: bool, tag_base: u32) -> Vec<G> {
     let n = 1 + rng.below(4);
     let mut b = vec![];
     let mut tag = tag_base;
+    if rng.chance(1, 16) {
+        // the empty clause `[]`: an empty conjunction, which succeeds once
+        return vec![];
+    }
     if rng.chance(1, 12) {
         // a branch that succeeds statically (`true`): the stream of the disjunction then carries a
         // mature state next to siblings that are still pending
@@ -160,7 +164,7 @@ impl Check for C10 {
         vec![GenSpec { name: "fd", quick: 5000, thorough: 300_000 }, GenSpec { name: "tree", quick: 5000, thorough: 300_000 }, GenSpec { name: "fixed", quick: 3, thorough: 3 }]
     }
     fn rule(&self) -> &'static str {
-        "Programs `prefix, conde { A, B [, C] }, suffix` over 4 query variables. 'fd': the prefix gives all variables the domain 0..=3 and posts distinctfd / ltefd+plusfd / diseqfd constraints, so both branches wake the SAME constraint objects (incl. DistinctFd2Constraint, which updates itself through Rc::make_mut); 'tree': prefix of disequalities and a plusz. Branches of 1-4 goals: bindings, aliasing, member with 2-4 answers (so states of different branches are alive at the same time), further constraints, user-state updates (probe tags), each ending in a probe; occasionally a statically succeeding branch (`true`), a statically failing one, a dfs { cond { } } block as a branch, or a branch that starts with a nested conde followed by further goals; optional suffix goal shared by all branches. Monitors: (1) the answers of the combined program must equal, as a multiset, the union of the answers of `prefix, A, suffix`, `prefix, B, suffix`, ... run separately (real vs real); (2) M-snap: a clone of the state is retained at every probe with an order-insensitive fingerprint of substitution, constraint store incl. constraint internals, domain store and user state, and is re-fingerprinted after the whole search has finished: it must not have changed; (3) every final state's probe-tag trail must be the trail of exactly one branch (compared with the reference interpreter's trails). Distinct = distinct program text; non-trivial = at least two branches reach a probe."
+        "Programs `prefix, conde { A, B [, C] }, suffix` over 4 query variables. 'fd': the prefix gives all variables the domain 0..=3 and posts distinctfd / ltefd+plusfd / diseqfd constraints, so both branches wake the SAME constraint objects (incl. DistinctFd2Constraint, which updates itself through Rc::make_mut); 'tree': prefix of disequalities and a plusz. Branches of 1-4 goals: bindings, aliasing, member with 2-4 answers (so states of different branches are alive at the same time), further constraints, user-state updates (probe tags), each ending in a probe; occasionally the empty clause `[]`, a statically succeeding branch (`true`), a statically failing one, a dfs { cond { } } block as a branch, or a branch that starts with a nested conde followed by further goals; optional suffix goal shared by all branches. Monitors: (1) the answers of the combined program must equal, as a multiset, the union of the answers of `prefix, A, suffix`, `prefix, B, suffix`, ... run separately (real vs real); (2) M-snap: a clone of the state is retained at every probe with an order-insensitive fingerprint of substitution, constraint store incl. constraint internals, domain store and user state, and is re-fingerprinted after the whole search has finished: it must not have changed; (3) every final state's probe-tag trail must be the trail of exactly one branch (compared with the reference interpreter's trails). Distinct = distinct program text; non-trivial = at least two branches reach a probe."
     }
     fn assumptions(&self) -> Vec<String> {
         vec!["fingerprints rely on the derived Debug output of constraints (covers DistinctFd2Constraint's y and n fields)".into(), "tag trails are compared with pvmon::refsem".into()]
